@@ -162,8 +162,10 @@ def finish(ctx, level, explanation, assumptions, t0, extra_cov=None):
             kf.append(v)
         else:
             real.append(v)
-    os.makedirs(os.path.join(VERIF, "evidence"), exist_ok=True)
-    os.makedirs(os.path.join(VERIF, "reports"), exist_ok=True)
+    evdir = os.environ.get("MTSA_EVIDENCE_DIR") or os.path.join(VERIF, "evidence")
+    repdir = os.path.join(os.path.dirname(evdir), "reports") if os.environ.get("MTSA_EVIDENCE_DIR") else os.path.join(VERIF, "reports")
+    os.makedirs(evdir, exist_ok=True)
+    os.makedirs(repdir, exist_ok=True)
     n_ob = len(ctx.obligations)
     n_ok = sum(1 for o in ctx.obligations if o["ok"])
     samples = []
@@ -200,7 +202,7 @@ def finish(ctx, level, explanation, assumptions, t0, extra_cov=None):
         "wall_s": round(time.time() - t0, 3),
         "violations": len(real),
     }
-    with open(os.path.join(VERIF, "evidence", "%s.json" % ctx.pid), "w") as f:
+    with open(os.path.join(evdir, "%s.json" % ctx.pid), "w") as f:
         json.dump(ev, f, indent=1)
     print("== %s tier=%s: %d obligations, %d discharged, %d functions, %.1fs" % (
         ctx.pid, ctx.tier, n_ob, n_ok, len(ctx.functions), time.time() - t0))
@@ -210,7 +212,7 @@ def finish(ctx, level, explanation, assumptions, t0, extra_cov=None):
     for v in kf:
         print("KNOWN-FINDING: property=%s %s :: %s" % (ctx.pid, v.key, known[v.key]))
     if real:
-        rp = os.path.join(VERIF, "reports", "%s.json" % ctx.pid)
+        rp = os.path.join(repdir, "%s.json" % ctx.pid)
         with open(rp, "w") as f:
             json.dump({"property": ctx.pid, "tier": ctx.tier, "violations": [v.to_json() for v in real]}, f, indent=1)
         for v in real:
